@@ -1,14 +1,14 @@
 \* generated by mkcfg.sh
-SPECIFICATION GenSpec
+SPECIFICATION Spec
 CONSTANTS
   Aux <- MCAux
   NodeKinds <- MCNodeKinds
   CallSet <- MCCallSet
   Twin <- MCTwin
   N = 2
-  MaxCalls = 1
+  MaxCalls = 2
   SrcEnc = "aes"
-  DstEnc = "aes"
+  DstEnc = "none"
   EmptyArrayNil = FALSE
   NilEntryPanics = FALSE
   KeyByAsked = FALSE
@@ -18,17 +18,17 @@ CONSTANTS
   StepBound = 400
   ScalarAtoms = {"i:7"}
   MaxSlots = 1
-  WithDict = TRUE
+  WithDict = FALSE
   WithNest = FALSE
   Nest2 = FALSE
   WithStream = TRUE
-  StreamLayouts = {"none","direct","indirect","array","chain"}
+  StreamLayouts = {"none"}
   WithDangling = FALSE
   WithNullObj = FALSE
   WithScalarObj = TRUE
-  CallOps = {"ref","obj","arr1"}
+  CallOps = {"obj"}
   WithTwin = FALSE
-  CFIndirect = TRUE
+  CFIndirect = FALSE
   PlainIdentity = FALSE
   KeyByNumber = FALSE
   CryptProbeDirectOnly = FALSE
@@ -37,6 +37,6 @@ CONSTANTS
   MaxChain = 10
   BoundBeforeRead = FALSE
   TargetOpen = FALSE
-  SharedBuffer = FALSE
-  Bodies = {"b1"}
-INVARIANTS Once Repeat Terminates NoPanic ErrorsOnlyUnsupported Shape Sharing IsoInv
+  SharedBuffer = TRUE
+  Bodies = {"b1","b2"}
+INVARIANTS Shape
